@@ -692,9 +692,24 @@ def gen_tree(rng: random.Random, profile: str) -> Dict[str, Any]:
         if with_edges and mods and rng.random() < 0.6:
             tgt_imp, tgt_rel = rng.choice(mods)
             tgt_defs = [ln.split("(")[0][4:] for ln in files[tgt_rel].splitlines() if ln.startswith("def pub_")]
-            form = rng.choice(["star", "from", "from_as", "import"])
+            form = rng.choice(["star", "from", "from_as", "import", "reimport", "reimport"])
             use = rng.choice(tgt_defs) if tgt_defs else None
-            if use:
+            if use and form == "reimport":
+                # the imported module re-exports a stdlib module that it uses but (in half of the cases)
+                # does not import yet: the tool adds that import to it in pass 1, and only then can it
+                # redirect this file's 'from <module> import math' to 'import math'
+                std = rng.choice(["math", "os", "json"])
+                attr = {"math": "sqrt(4)", "os": "getcwd()", "json": "dumps({})"}[std]
+                tgt_text = files[tgt_rel]
+                if f"{std}." not in tgt_text:
+                    add = f"\n\ndef uses_{std}_{k}():\n    return {std}.{attr}\n\n\nprint(uses_{std}_{k}())\n"
+                    if rng.random() < 0.5:
+                        tgt_text = f"import {std}\n" + tgt_text
+                    files[tgt_rel] = tgt_text.rstrip("\n") + add
+                head = f"from {tgt_imp} import {std}, {use}\n"
+                call = f"print({use}(5), {std}.__name__)\n"
+                text = head + text.rstrip("\n") + "\n" + call
+            elif use:
                 if form == "star":
                     head = f"from {tgt_imp} import *\n"
                     call = f"print({use}(1))\n"
